@@ -14,7 +14,8 @@ PROPS = {
               "judged at one integer sample point per face of the input edge arrangement (samples closer than tau = 2 + "
               "max|coord|*2^-42 to an input edge are skipped) by exact __int128 winding numbers: solution winding must be "
               "+1/-1 where the operation selects the point, 0 elsewhere. Non-trivial = at least one proper edge crossing "
-              "and both a filled and an empty sample; distinct = distinct hash of the case encoding"),
+              "and both a filled and an empty sample; distinct = distinct hash of the case encoding"
+              " Routes: besides Clipper64 and the HI_PRECISION build, each case is also run through the free functions (Intersect/Union/Difference/Xor or BooleanOp) and through staged loading on one object (half the subjects, an Execute, the rest and the clips, Execute); a third of the magnitude-scaled cases keep a pure power-of-two lattice (no low-bit jitter)"),
         assumptions=["oracle: exact integer winding numbers + face sampling; faces narrower than the tolerance band are not judged",
                      "|coordinates| <= 2^61"],
         technique="property-based testing (rapidcheck) against an exact winding-number reference model, two build variants in one binary",
@@ -35,7 +36,8 @@ PROPS = {
               "checks of non-zero area, no 180-degree spike, no properly crossing solution edges, orientation parity by "
               "nesting depth (exact winding at doubled edge midpoints), no collinear triple with PreserveCollinear off, "
               "every vertex within tolerance of an input edge, and Union idempotence. Every case runs 4 clip types x 4 fill "
-              "rules x PreserveCollinear x ReverseSolution. Non-trivial = some solution has >=2 paths or a path with >=6 vertices"),
+              "rules x PreserveCollinear x ReverseSolution. Non-trivial = some solution has >=2 paths or a path with >=6 vertices"
+              " Routes: 20% of the cases go through ClipperD at precision 0..3 (judged in ClipperD's internal grid), 25% take the closed paths from a PolyTree64/PolyTreeD and flatten it; with open subjects loaded the structural clauses are also applied to the closed-only Execute overload"),
         assumptions=["geometric clauses judged for |coord| <= 2^59 (doubled coordinates must fit the __int128 predicates)",
                      "idempotence differences that vanish after splitting paths at vertices they visit twice are the listed class KF-C03-a"],
         technique="property-based testing (rapidcheck): exact structural and geometric validity predicates over the solution + Union round-trip",
@@ -60,7 +62,8 @@ PROPS = {
               "tree paths == paths result as canonical sets, open outputs equal, every node strictly inside its parent and "
               "outside its siblings (exact winding at doubled edge midpoints), orientation alternates with level (negated by "
               "ReverseSolution), tree.Area() == paths area. Non-trivial = tree depth >= 2 (a hole); the depth histogram is in "
-              "classification"),
+              "classification"
+              " Routes: one PolyTree64 and one PolyTreeD object are shared by all 64 configurations of a case (Execute must replace their content) and the ClipperD precision alternates between 0 and a per-case value 0..4; the free functions BooleanOp(...,PolyTree64&) and BooleanOp(...,PolyTreeD&,precision) are compared with their Paths counterparts"),
         assumptions=["|coord| <= 2^59 (2^50 for the ClipperD half)", "general position taken at separation 3 + max|coord|*2^-40 (cf. KF-C03-b)"],
         technique="property-based testing (rapidcheck): differential Paths-vs-PolyTree execution + exact nesting/orientation oracle",
         level_text=("Generated search with nesting-heavy generators over 64 configurations, both PolyTree64 and PolyTreeD, "
@@ -95,7 +98,8 @@ PROPS = {
               "(inside clip for Intersection, outside clip for Difference/Xor, outside subject and clip regions for Union). "
               "Checked: locality of every solution segment (1.5 units), coverage both ways at the midpoints, total length "
               "within 3 units per crossing, closed-solution region unchanged by the open subjects. Non-trivial = an open "
-              "segment with >= 2 crossings that has both an inside and an outside interval"),
+              "segment with >= 2 crossings that has both an inside and an outside interval"
+              " Routes: 25% of the cases go through ClipperD at precision 0..3 (judged in its internal grid), 30% with ReverseSolution; clause (iv) is also checked through Execute(ct,fr,closed), Execute(ct,fr,tree) and ClipperD::Execute(ct,fr,closed) with open subjects loaded"),
         assumptions=["|coord| <= 2^32 so that long double classification of non-integer midpoints is exact with margin >= 1e-3",
                      "sub-intervals shorter than 6 units or closer than 1e-3 to an edge are not judged; their length is added to the length tolerance"],
         technique="property-based testing (rapidcheck): exact reference cutting of open segments + winding classification",
@@ -229,7 +233,8 @@ PROPS = {
               "Round: covered iff d <= delta-tol / uncovered iff d >= delta+tol; Miter/Square: between the round results for "
               "|delta| and k|delta|; Bevel: between the edge-normal sweep and the round result; coverage value +1/-1 by "
               "orientation and ReverseSolution; |delta|<0.5 leaves the region unchanged. Non-trivial = polygon with a concave "
-              "vertex and both covered and uncovered judged samples"),
+              "vertex and both covered and uncovered judged samples"
+              " Routes: the offset is obtained per case through a fresh ClipperOffset into Paths64, into a PolyTree64 (flattened), through one object executed into a tree first and into paths afterwards, or through InflatePaths"),
         assumptions=["samples are integer points; points inside the tolerance band arc_tol + 2 + 0.001|delta| are not judged",
                      "a mismatch that disappears for all of delta +-0.37, +-0.73 is classified as KF-ENG-a (sub-grid near-touch artefact of the clean-up union)"],
         technique="property-based testing (rapidcheck): signed-distance reference model of the offset region, sampled",
@@ -251,7 +256,8 @@ PROPS = {
               "independent of path direction; independence from the other (distant) paths of the call is implied by judging "
               "the mixture against the per-path model (and checked exactly for all orders in C12/offset_indep); (point) single "
               "points become a circle of radius |delta| (vertices within tol) or the square of half-side ceil(|delta|), all "
-              "join x end types. Non-trivial = mixture with a 2-point and a longer path, or a self-crossing polyline"),
+              "join x end types. Non-trivial = mixture with a 2-point and a longer path, or a self-crossing polyline"
+              " Routes: as C06, plus route 4: a distant positively oriented round-joined decoy square is added as a separate group BEFORE the paths under test and both +delta and -delta results are judged against the model (exact +/- identity is asserted on the other routes)"),
         assumptions=["|delta| >= 1 (single points are dropped by design below 1)", "points inside the tolerance band are not judged",
                      "a mismatch that disappears for all of |delta| +-0.37, +-0.73 is classified as KF-ENG-a"],
         technique="property-based testing (rapidcheck): distance-based stroke model with inner/outer bounds + metamorphic relations",
@@ -269,7 +275,8 @@ PROPS = {
               "simple polygons (equal parity for self-intersecting ones without an edge along a side), more than 1 unit "
               "outside nothing is covered; bounds inside => returned unchanged, bounds disjoint => empty; orientation "
               "preserved; clipping several paths in one call == concatenation of the single-path results. Non-trivial = the "
-              "path meets the rectangle boundary at least twice"),
+              "path meets the rectangle boundary at least twice"
+              " Routes: 35% of the cases go through the RectD/PathsD/PathD overloads at precision 0..4 (input divided by 10^p, result multiplied back, same integer oracle)"),
         assumptions=["exact classification of 'simple' and 'edge along a side' in __int128", "the one-unit band inside each side is not judged (crossing points are truncated, which the statement allows)"],
         technique="property-based testing (rapidcheck): exact winding-number reference restricted to the rectangle",
         level_text="Generated search with side/corner-snapping generators against an exact winding oracle, path by path. Exploration only.",
@@ -284,7 +291,8 @@ PROPS = {
               "direction (non-decreasing arc-length parameter, 2 units slack); total length == exact inside length within 2 "
               "units per crossing (segments lying along a side are optional: their length widens the tolerance); midpoints "
               "of inside intervals (> 4 units) are covered, midpoints of outside intervals more than 2 units from the "
-              "rectangle are not; batch == concatenation. Non-trivial = at least 2 boundary crossings"),
+              "rectangle are not; batch == concatenation. Non-trivial = at least 2 boundary crossings"
+              " Routes: 35% of the cases go through the RectD/PathsD/PathD overloads at precision 0..4 (input divided by 10^p, result multiplied back, same integer oracle)"),
         assumptions=["polylines with repeated consecutive points are skipped (counted)", "|coord| <= 2^40"],
         technique="property-based testing (rapidcheck): differential against an exact Liang-Barsky reference",
         level_text="Generated search against an independent segment clipper, including order/direction. Exploration only.",
@@ -332,7 +340,8 @@ PROPS = {
               "through its neighbours. RamerDouglasPeucker: subsequence, end points kept, every removed vertex within "
               "epsilon of the line through its surviving neighbours. StripDuplicates, StripNearEqual, TranslatePath, Length, "
               "GetBounds, Ellipse against their defining equations. Non-trivial = input of >= 4 points from which some but "
-              "not all vertices are removed"),
+              "not all vertices are removed"
+              " Routes: TranslatePath is also checked in its Paths64 and PathD forms"),
         assumptions=["SimplifyPath's no-removable-vertex clause is judged on inputs of >= 4 points (KF-C20-b)",
                      "StripNearEqual cases where a pair distance equals the threshold to 1e-9 relative are skipped"],
         technique="property-based testing (rapidcheck): contract predicates and defining equations on generated degenerate paths",
@@ -350,7 +359,8 @@ PROPS = {
               "delta and arc tolerance multiplied by the scale, the Paths64 API, result divided by the scale. Oracle: same "
               "number of paths and vertices in the same order, llround(result*scale) equals the integer result exactly and "
               "|result - integer/scale| <= 4 ulp; PolyTreeD has the PolyTree64's shape node for node (level, child count, "
-              "IsHole). Non-trivial = an input coordinate that is not on the scaled grid and a non-empty result"),
+              "IsHole). Non-trivial = an input coordinate that is not on the scaled grid and a non-empty result"
+              " Routes: BooleanOp is reached through BooleanOp, the named wrappers Intersect/Union/Difference/Xor, or BooleanOp into a PolyTreeD (flattened, against the PolyTree64 of the scaled input); RectClip/RectClipLines through the PathsD or the single-PathD overload"),
         assumptions=["scaled coordinates within +-2^52", "Minkowski PathD overloads probed with decimal places -4..4"],
         technique="property-based testing (rapidcheck): differential against a harness-side scaling model around the integer API",
         level_text="Generated differential search of every PathsD entry point against the integer API on scaled, rounded input. Exploration only.",
@@ -395,7 +405,8 @@ PROPS = {
               "around a sample that lies strictly inside some non-degenerate parallelogram (exact __int128 test) and not at all "
               "otherwise; empty operand or no non-degenerate parallelogram => empty result. Non-trivial = overlapping "
               "parallelograms and a non-convex or self-intersecting operand. (The PathD overloads are compared with the "
-              "integer ones in C16.)"),
+              "integer ones in C16.)"
+              " Routes: 30% of the cases go through the PathD overloads with 0..4 decimal places (operands divided by 10^dp, result multiplied back, same integer model)"),
         assumptions=["a mismatch that disappears when single path vertices are moved by one unit (>= 4 judged moves, at least 2 of them cure it) is the near-touch artefact KF-ENG-a of the final Union",
                      "'in general position' is read as C01 defines it, applied to each operand separately: operands with repeated points, slivers thinner than 3 units or retraced edges (two-point closed patterns) are outside the domain and not judged"],
         technique="property-based testing (rapidcheck): reference construction of the swept parallelograms + exact sampled coverage",
